@@ -285,6 +285,12 @@ def derived_designs():
             if par is not None and not vec:
                 out.append((f"derived/hier-input-default/parent={par}", HIER_SRC.format(parent=ptxt),
                             dict(parent=par, op=None, al=False, asy=None, vec=False, dflt=1)))
+            if par is not None and not vec:
+                # the reset of the context is obtained from another Reset object queried in either polarity
+                for q in ("active_high_signal", "active_low_signal"):
+                    wrapped = f", std.Reset(std.Reset({rsig}, active_low={par[1]}).{q}(), is_async={par[0]}, active_low={q == 'active_low_signal'})"
+                    out.append((f"derived/sep/parent={par}/requery/{q}", DERIVED_SRC.format(clk=clk, parent=wrapped, derive="base"),
+                                dict(parent=par, op=None, al=False, asy=None, vec=False)))
             ops = [None] if vec else [None, "or", "and"]
             for op in ops:
                 if op is None:
